@@ -35,7 +35,7 @@ import (
 // ---------------------------------------------------------------- cases
 
 type c18Ev struct {
-	K string `json:"k"`           // acqbegin acqtxn reacqtxn commit rellocal reldelete expire expirelazy releaseall restart orphan
+	K string `json:"k"`           // acqbegin acqtxn reacqtxn commit rellocal reldelete expire expirelazy releaseall restart orphan acqtxnlost reacqtxnlost reldeletelost orphanlost
 	B int    `json:"b"`           // broker index
 	R int    `json:"r"`           // resource index
 	L int    `json:"l,omitempty"` // orphan: lease number (order of grant within the case, from 1)
@@ -62,6 +62,7 @@ type c18Obs struct {
 type c18FlightKey struct{}
 
 var errC18Aborted = errors.New("verif: request dropped (broker restarted)")
+var errC18Lost = errors.New("verif: response lost (request applied by etcd, connection reset)")
 
 type c18Signal struct {
 	mgr  *c18Mgr
@@ -73,13 +74,13 @@ type c18Signal struct {
 
 type c18Gate struct {
 	mu      sync.Mutex
-	pending map[string][]chan bool
+	pending map[string][]chan int // 0 = drop the request, 1 = go on, 2 = go on but lose the response
 	sig     chan c18Signal
 	owner   *c18Mgr
 }
 
-func (g *c18Gate) wait(id string) bool {
-	ch := make(chan bool, 1)
+func (g *c18Gate) wait(id string) int {
+	ch := make(chan int, 1)
 	g.mu.Lock()
 	g.pending[id] = append(g.pending[id], ch)
 	g.mu.Unlock()
@@ -94,7 +95,7 @@ func (g *c18Gate) has(id string) bool {
 }
 
 // open lets the oldest request parked at id continue (ok) or fail without being sent (!ok).
-func (g *c18Gate) open(id string, ok bool) bool {
+func (g *c18Gate) open(id string, ok int) bool {
 	g.mu.Lock()
 	q := g.pending[id]
 	if len(q) == 0 {
@@ -113,7 +114,7 @@ func (g *c18Gate) abortAll() int {
 	n := 0
 	for id, q := range g.pending {
 		for _, ch := range q {
-			ch <- false
+			ch <- 0
 			n++
 		}
 		delete(g.pending, id)
@@ -128,12 +129,21 @@ type c18KV struct {
 }
 
 func (k *c18KV) Delete(ctx context.Context, key string, opts ...clientv3.OpOption) (*clientv3.DeleteResponse, error) {
-	if !k.g.wait("rel:" + key) {
+	mode := k.g.wait("rel:" + key)
+	if mode == 0 {
 		return nil, errC18Aborted
 	}
 	c, cancel := context.WithTimeout(context.Background(), 10*time.Second)
 	defer cancel()
-	return k.KV.Delete(c, key, opts...)
+	resp, err := k.KV.Delete(c, key, opts...)
+	if mode == 2 {
+		return nil, errC18Lost
+	}
+	// the server has applied the request; the caller sees the answer when the schedule says so
+	if k.g.wait("rel-post:"+key) == 0 {
+		return nil, errC18Aborted
+	}
+	return resp, err
 }
 
 // Put and Do are not used by the lease manager today; they are gated like a transaction so
@@ -144,16 +154,23 @@ func (k *c18KV) Put(ctx context.Context, key, val string, opts ...clientv3.OpOpt
 	if acq {
 		pre = "acq-pre:" + key
 	}
-	if !k.g.wait(pre) {
+	mode := k.g.wait(pre)
+	if mode == 0 {
 		return nil, errC18Aborted
 	}
 	c, cancel := context.WithTimeout(context.Background(), 10*time.Second)
 	defer cancel()
 	resp, err := k.KV.Put(c, key, val, opts...)
+	if mode == 2 {
+		return nil, errC18Lost
+	}
 	if acq && err == nil {
-		if !k.g.wait("acq-post:" + key) {
+		if k.g.wait("acq-post:"+key) == 0 {
 			return nil, errC18Aborted
 		}
+	}
+	if !acq && k.g.wait("rel-post:"+key) == 0 {
+		return nil, errC18Aborted
 	}
 	return resp, err
 }
@@ -165,16 +182,23 @@ func (k *c18KV) Do(ctx context.Context, op clientv3.Op) (clientv3.OpResponse, er
 	if acq {
 		pre = "acq-pre:" + key
 	}
-	if !k.g.wait(pre) {
+	mode := k.g.wait(pre)
+	if mode == 0 {
 		return clientv3.OpResponse{}, errC18Aborted
 	}
 	c, cancel := context.WithTimeout(context.Background(), 10*time.Second)
 	defer cancel()
 	resp, err := k.KV.Do(c, op)
+	if mode == 2 {
+		return clientv3.OpResponse{}, errC18Lost
+	}
 	if acq && err == nil && (op.IsPut() || op.IsDelete()) {
-		if !k.g.wait("acq-post:" + key) {
+		if k.g.wait("acq-post:"+key) == 0 {
 			return clientv3.OpResponse{}, errC18Aborted
 		}
+	}
+	if !acq && k.g.wait("rel-post:"+key) == 0 {
+		return clientv3.OpResponse{}, errC18Aborted
 	}
 	return resp, err
 }
@@ -187,12 +211,17 @@ type c18Lease struct {
 }
 
 func (l *c18Lease) Revoke(ctx context.Context, id clientv3.LeaseID) (*clientv3.LeaseRevokeResponse, error) {
-	if !l.g.wait(fmt.Sprintf("revoke:%d", int64(id))) {
+	mode := l.g.wait(fmt.Sprintf("revoke:%d", int64(id)))
+	if mode == 0 {
 		return nil, errC18Aborted
 	}
 	c, cancel := context.WithTimeout(context.Background(), 10*time.Second)
 	defer cancel()
-	return l.Lease.Revoke(c, id)
+	resp, err := l.Lease.Revoke(c, id)
+	if mode == 2 {
+		return nil, errC18Lost
+	}
+	return resp, err
 }
 
 func (k *c18KV) Txn(ctx context.Context) clientv3.Txn {
@@ -233,17 +262,24 @@ func (t *c18Txn) Commit() (*clientv3.TxnResponse, error) {
 	if t.acq {
 		pre = "acq-pre:" + t.key
 	}
-	if !t.kv.g.wait(pre) {
+	mode := t.kv.g.wait(pre)
+	if mode == 0 {
 		return nil, errC18Aborted
 	}
 	// the real request, with its own deadline (the caller's 5 s deadline started before the gate)
 	c, cancel := context.WithTimeout(context.Background(), 10*time.Second)
 	defer cancel()
 	resp, err := t.kv.KV.Txn(c).If(t.cmps...).Then(t.thens...).Else(t.elses...).Commit()
+	if mode == 2 {
+		return nil, errC18Lost
+	}
 	if t.acq && err == nil && resp.Succeeded {
-		if !t.kv.g.wait("acq-post:" + t.key) {
+		if t.kv.g.wait("acq-post:"+t.key) == 0 {
 			return nil, errC18Aborted
 		}
+	}
+	if !t.acq && t.kv.g.wait("rel-post:"+t.key) == 0 {
+		return nil, errC18Aborted
 	}
 	return resp, err
 }
@@ -260,6 +296,20 @@ type c18Mgr struct {
 	flights map[string]string // rid -> phase: txn | reacq | commit
 	rels    map[string]int    // rid -> Release calls parked in front of their etcd request
 	revokes map[string]bool   // gate ids of parked ReleaseAll lease revokes
+	relPost map[string]int    // rid -> Release calls whose request is applied but whose answer is held back
+}
+
+// flushRelPost delivers the held-back answers of m's Release requests.
+func (w *c18World) flushRelPost(m *c18Mgr) {
+	for rid, n := range m.relPost {
+		for ; n > 0; n-- {
+			m.gate.open("rel-post:"+w.key(rid), 1)
+			if s := w.next(); s.kind != "reldone" {
+				w.t.Fatalf("C18 harness: unexpected signal after release answer: %+v", s)
+			}
+		}
+		delete(m.relPost, rid)
+	}
 }
 
 type c18World struct {
@@ -297,8 +347,8 @@ func (w *c18World) newMgr(idx int) *c18Mgr {
 	if err != nil {
 		w.t.Fatalf("etcd client: %v", err)
 	}
-	m := &c18Mgr{idx: idx, cli: cli, flights: map[string]string{}, rels: map[string]int{}, revokes: map[string]bool{}}
-	m.gate = &c18Gate{pending: map[string][]chan bool{}, sig: w.sig, owner: m}
+	m := &c18Mgr{idx: idx, cli: cli, flights: map[string]string{}, rels: map[string]int{}, revokes: map[string]bool{}, relPost: map[string]int{}}
+	m.gate = &c18Gate{pending: map[string][]chan int{}, sig: w.sig, owner: m}
 	cli.KV = &c18KV{KV: cli.KV, g: m.gate}
 	cli.Lease = &c18Lease{Lease: cli.Lease, g: m.gate}
 	logger := slog.New(slog.NewTextHandler(io.Discard, nil))
@@ -418,7 +468,7 @@ func (w *c18World) flightSignal(m *c18Mgr, rid string, s c18Signal) int {
 
 // exec performs one event on the real managers; returns (executed, acquire result code or -1).
 func (w *c18World) exec(ev c18Ev) (bool, int) {
-	if ev.K == "orphan" {
+	if ev.K == "orphan" || ev.K == "orphanlost" {
 		if ev.L < 1 || ev.L > len(w.granted) {
 			return false, -1
 		}
@@ -433,7 +483,11 @@ func (w *c18World) exec(ev c18Ev) (bool, int) {
 			if m.revokes[gid] {
 				// the parked second step of that manager's ReleaseAll
 				delete(m.revokes, gid)
-				m.gate.open(gid, true)
+				mode := 1
+				if ev.K == "orphanlost" {
+					mode = 2 // the revoke is applied, Session.Close gets an error (ReleaseAll ignores it)
+				}
+				m.gate.open(gid, mode)
 				if s := w.next(); s.kind != "radone" {
 					w.t.Fatalf("C18 harness: unexpected signal after revoke: %+v", s)
 				}
@@ -450,6 +504,9 @@ func (w *c18World) exec(ev c18Ev) (bool, int) {
 	}
 	m := w.mgrs[ev.B]
 	rid := w.res[ev.R]
+	// a Release call of this manager whose request etcd has applied gets its answer now at the
+	// latest (nothing in between has touched this manager)
+	w.flushRelPost(m)
 	switch ev.K {
 	case "acqbegin":
 		if _, busy := m.flights[rid]; busy {
@@ -467,21 +524,25 @@ func (w *c18World) exec(ev c18Ev) (bool, int) {
 			w.granted = append(w.granted, s.Lease())
 		}
 		return true, code
-	case "acqtxn", "reacqtxn":
+	case "acqtxn", "reacqtxn", "acqtxnlost", "reacqtxnlost":
 		want := "txn"
-		if ev.K == "reacqtxn" {
+		if strings.HasPrefix(ev.K, "reacq") {
 			want = "reacq"
 		}
 		if m.flights[rid] != want {
 			return false, -1
 		}
-		m.gate.open("acq-pre:"+w.key(rid), true)
+		mode := 1
+		if strings.HasSuffix(ev.K, "lost") {
+			mode = 2 // etcd applies the request, the client call returns an error
+		}
+		m.gate.open("acq-pre:"+w.key(rid), mode)
 		return true, w.flightSignal(m, rid, w.next())
 	case "commit":
 		if m.flights[rid] != "commit" {
 			return false, -1
 		}
-		m.gate.open("acq-post:"+w.key(rid), true)
+		m.gate.open("acq-post:"+w.key(rid), 1)
 		return true, w.flightSignal(m, rid, w.next())
 	case "rellocal":
 		go func() {
@@ -495,13 +556,22 @@ func (w *c18World) exec(ev c18Ev) (bool, int) {
 			w.t.Fatalf("C18 harness: unexpected signal after Release: %+v", s)
 		}
 		return true, -1
-	case "reldelete":
+	case "reldelete", "reldeletelost":
 		if m.rels[rid] == 0 {
 			return false, -1
 		}
 		m.rels[rid]--
-		m.gate.open("rel:"+w.key(rid), true)
-		if s := w.next(); s.kind != "reldone" {
+		mode := 1
+		if ev.K == "reldeletelost" {
+			mode = 2
+		}
+		m.gate.open("rel:"+w.key(rid), mode)
+		switch s := w.next(); {
+		case s.kind == "arrive" && s.id == "rel-post:"+w.key(rid):
+			// applied by etcd; the Release call has not seen the answer yet
+			m.relPost[rid]++
+		case s.kind == "reldone":
+		default:
 			w.t.Fatalf("C18 harness: unexpected signal after release delete: %+v", s)
 		}
 		return true, -1
@@ -675,7 +745,9 @@ func c18Run(t *testing.T, endpoints []string, root *clientv3.Client, cs c18Case)
 		var before map[string]*c18KVObs
 		var ownedBefore bool
 		var obsBefore c18Obs
-		if (ev.K == "reldelete" || ev.K == "acqtxn" || ev.K == "reacqtxn") && ev.B >= 0 && ev.B < len(w.mgrs) && ev.R >= 0 && ev.R < len(w.res) {
+		isRel := ev.K == "reldelete" || ev.K == "reldeletelost"
+		isWrite := ev.K == "acqtxn" || ev.K == "reacqtxn" || ev.K == "acqtxnlost" || ev.K == "reacqtxnlost"
+		if (isRel || isWrite) && ev.B >= 0 && ev.B < len(w.mgrs) && ev.R >= 0 && ev.R < len(w.res) {
 			obsBefore, before = w.observe()
 			ownedBefore = w.mgrs[ev.B].ownsRes(w.res[ev.R])
 		}
@@ -730,7 +802,7 @@ func c18Run(t *testing.T, endpoints []string, root *clientv3.Client, cs c18Case)
 			}
 		}
 		// oracle 2: a release never removes a lease that another broker has since acquired
-		if ev.K == "reldelete" {
+		if isRel {
 			self := strconv.Itoa(ev.B + 1)
 			for k, b := range before {
 				a := after[k]
@@ -743,7 +815,7 @@ func c18Run(t *testing.T, endpoints []string, root *clientv3.Client, cs c18Case)
 		// ... and no etcd request of an Acquire overwrites the key of a lease that another
 		// broker currently owns (the owner would keep believing it owns a lease that is gone:
 		// the same loss as in oracle 2, and the writer becomes a second owner with its commit)
-		if ev.K == "acqtxn" || ev.K == "reacqtxn" {
+		if isWrite {
 			self := strconv.Itoa(ev.B + 1)
 			for j, rid := range w.res {
 				b, a := before[w.key(rid)], after[w.key(rid)]
@@ -790,7 +862,18 @@ func c18Gen(r *vRand) c18Case {
 			res = r.Intn(len(cs.Res))
 		}
 		rel := []c18Ev{{K: "rellocal", B: b, R: res}, {K: "reldelete", B: b, R: res}}
+		if r.Chance(15) {
+			rel[1].K = "reldeletelost"
+		}
 		switch x := r.Intn(100); {
+		case x < 6: // lost response of one of the acquire requests
+			sc := c18Full(b, res)
+			if r.Bool() {
+				sc[1].K = "acqtxnlost"
+			} else {
+				sc[2].K = "reacqtxnlost"
+			}
+			scripts = append(scripts, sc)
 		case x < 40:
 			scripts = append(scripts, c18Full(b, res))
 		case x < 58:
@@ -809,7 +892,11 @@ func c18Gen(r *vRand) c18Case {
 		case x < 93:
 			scripts = append(scripts, []c18Ev{{K: "restart", B: b, R: res}})
 		default:
-			scripts = append(scripts, []c18Ev{{K: "orphan", L: r.Range(1, 4)}})
+			k := "orphan"
+			if r.Chance(25) {
+				k = "orphanlost"
+			}
+			scripts = append(scripts, []c18Ev{{K: k, L: r.Range(1, 4)}})
 		}
 	}
 	for {
@@ -836,7 +923,7 @@ func c18Gen(r *vRand) c18Case {
 		}
 	}
 	// noise: single steps at random positions (mostly disabled ones are dropped at execution)
-	kinds := []string{"acqbegin", "acqtxn", "reacqtxn", "commit", "rellocal", "reldelete"}
+	kinds := []string{"acqbegin", "acqtxn", "reacqtxn", "commit", "rellocal", "reldelete", "acqtxnlost", "reacqtxnlost", "reldeletelost"}
 	for n := r.Range(0, 4); n > 0; n-- {
 		ev := c18Ev{K: kinds[r.Intn(len(kinds))], B: r.Intn(cs.NB), R: r.Intn(len(cs.Res))}
 		pos := r.Intn(len(cs.Evs) + 1)
@@ -890,7 +977,25 @@ func c18GenWindow(r *vRand) c18Case {
 	} else {
 		call = []c18Ev{{K: "rellocal", B: x, R: res}, {K: "reldelete", B: x, R: res}}
 	}
+	// where the call is stopped: before its next request, or -- most interesting -- right
+	// after etcd applied a request and before the manager handled the answer (for an acquire:
+	// after acqtxn / reacqtxn, before commit; for a Release the answer of reldelete is held
+	// back until the next step of that manager)
 	cut := r.Range(1, len(call)-1)
+	if len(call) == 4 && r.Chance(60) {
+		cut = 3
+	}
+	if len(call) == 2 && r.Chance(60) {
+		cut = 2
+	}
+	if r.Chance(10) {
+		// ... or the answer is lost altogether
+		for i := range call {
+			if i < cut && (call[i].K == "acqtxn" || call[i].K == "reacqtxn" || call[i].K == "reldelete") && r.Bool() {
+				call[i].K += "lost"
+			}
+		}
+	}
 	cs.Evs = c18Cat(cs.Evs, call[:cut])
 	// the window: complete operations of the others, expiries
 	for n := r.Range(1, 4); n > 0; n-- {
@@ -908,10 +1013,18 @@ func c18GenWindow(r *vRand) c18Case {
 			cs.Evs = c18Cat(cs.Evs, one("expire", o))
 		case y < 88:
 			cs.Evs = c18Cat(cs.Evs, []c18Ev{{K: "expirelazy", B: o, R: 1}}, []c18Ev{{K: "acqtxn", B: o, R: 1}, {K: "commit", B: o, R: 1}})
-		case y < 94:
+		case y < 91:
 			cs.Evs = c18Cat(cs.Evs, one("reldelete", x))
-		default:
+		case y < 94:
 			cs.Evs = c18Cat(cs.Evs, one("releaseall", o))
+		case y < 98:
+			// X itself is told to shut down / is restarted while its request is out
+			cs.Evs = c18Cat(cs.Evs, one("releaseall", x))
+			if r.Bool() {
+				cs.Evs = c18Cat(cs.Evs, []c18Ev{{K: "orphan", L: r.Range(1, 3)}})
+			}
+		default:
+			cs.Evs = c18Cat(cs.Evs, one("restart", x))
 		}
 	}
 	cs.Evs = c18Cat(cs.Evs, call[cut:])
@@ -1005,6 +1118,14 @@ func c18Corpus() []c18Case {
 		// monitorSession: ownership must be cleared there too; B then takes the expired lease
 		{Kind: "plain", NB: 2, Res: []string{"x", "z"}, Evs: c18Cat(c18Full(0, 0), []c18Ev{{K: "expirelazy", B: 0, R: 1}, {K: "acqtxn", B: 0, R: 1}, {K: "commit", B: 0, R: 1}}, c18Full(1, 0), c18Full(0, 0))},
 		{Kind: "partition", NB: 2, Res: []string{"orders/0", "orders/1"}, Evs: c18Cat(c18Full(0, 0), c18Full(0, 1), one("rellocal", 0, 1), one("reldelete", 0, 1), []c18Ev{{K: "expirelazy", B: 0, R: 1}}, c18Full(1, 0), one("acqtxn", 0, 1), one("commit", 0, 1))},
+		// the acquire transaction is applied, then the session is lost (monitorSession runs) /
+		// ReleaseAll runs, THEN the manager handles the answer: nothing may be recorded
+		{Kind: "plain", NB: 2, Res: []string{"x"}, Evs: c18Cat([]c18Ev{{K: "acqbegin", B: 0, R: 0}, {K: "acqtxn", B: 0, R: 0}, {K: "expire", B: 0}, {K: "commit", B: 0, R: 0}}, c18Full(1, 0), c18Full(0, 0))},
+		{Kind: "partition", NB: 2, Res: []string{"orders/0"}, Evs: c18Cat([]c18Ev{{K: "acqbegin", B: 0, R: 0}, {K: "acqtxn", B: 0, R: 0}, {K: "releaseall", B: 0}, {K: "commit", B: 0, R: 0}, {K: "orphan", L: 1}}, c18Full(1, 0), c18Full(0, 0))},
+		// the Release request is applied, another broker acquires, then the Release call sees the answer
+		{Kind: "group", NB: 2, Res: []string{"g1"}, Evs: c18Cat(c18Full(0, 0), one("rellocal", 0, 0), one("reldelete", 0, 0), c18Full(1, 0), c18Full(0, 0))},
+		// lost answers: the acquire transaction / the release delete are applied but the call fails
+		{Kind: "plain", NB: 2, Res: []string{"x"}, Evs: c18Cat([]c18Ev{{K: "acqbegin", B: 0, R: 0}, {K: "acqtxnlost", B: 0, R: 0}}, c18Full(1, 0), []c18Ev{{K: "acqbegin", B: 0, R: 0}, {K: "acqtxn", B: 0, R: 0}, {K: "reacqtxnlost", B: 0, R: 0}}, c18Full(0, 0), one("rellocal", 0, 0), one("reldeletelost", 0, 0), c18Full(1, 0))},
 		// graceful shutdown, then a late acquire
 		{Kind: "partition", NB: 2, Res: []string{"orders/0", "orders/1"}, Evs: c18Cat(c18Full(0, 0), c18Full(0, 1), one("releaseall", 0, 0), c18Full(1, 0), []c18Ev{{K: "orphan", L: 1}}, c18Full(1, 0), c18Full(0, 0))},
 		// restart between the two steps of ReleaseAll: the lease is never revoked, it expires later
@@ -1031,8 +1152,12 @@ func c18CoqEv(cs c18Case, ev c18Ev) string {
 		return fmt.Sprintf("AcqCommitLocal %s %s", b, r)
 	case "rellocal":
 		return fmt.Sprintf("RelLocal %s %s", b, r)
-	case "reldelete":
+	case "reldelete", "reldeletelost":
 		return fmt.Sprintf("RelDelete %s %s", b, r)
+	case "acqtxnlost":
+		return fmt.Sprintf("AcqTxnLost %s %s", b, r)
+	case "reacqtxnlost":
+		return fmt.Sprintf("ReacqTxnLost %s %s", b, r)
 	case "expire", "expirelazy":
 		return fmt.Sprintf("SessionExpire %s", b)
 	case "releaseall":
@@ -1112,7 +1237,7 @@ func c18Tags(evs []c18Ev, obs []c18Obs) map[string]bool {
 		switch ev.K {
 		case "rellocal":
 			pendingRel[[2]int{ev.B, ev.R}] = true
-		case "reldelete":
+		case "reldelete", "reldeletelost":
 			delete(pendingRel, [2]int{ev.B, ev.R})
 		case "acqtxn", "reacqtxn", "expire", "expirelazy":
 			isExp := ev.K == "expire" || ev.K == "expirelazy"
